@@ -45,6 +45,27 @@ CHECKS = {
  "C14": ("fault_enumeration", "conservation monitor over per-node Append records, RPC records, PUBACKs and subscriber packets for every subset of unreachable destination nodes",
          "Seeded placements over 2-3 nodes joined by real gRPC over bufconn; for every topic, publisher and every subset of unreachable nodes one tagged publish; appends per node and tag, deliveries per subscriber and filter and the presence of the acknowledgement are compared with the placement-derived expectation after a sentinel barrier.",
          "Unreachability is injected at the transport's Call boundary. Gossip barrier before publishing.", "5/C14"),
+ "C11": ("exploration", "state-predicate monitors over every node's listings and registries plus client-side EOF/PINGRESP observation, per termination cause; client-measured idle gaps for the no-spurious-end part",
+         "Every termination cause x subscription sets x 1-3 nodes with a running gossip pump: EOF at the client, absence of the session record, its subscriptions and its registry entry on every node (polled <=10 s), nothing written to the ended session afterwards, and at quiescence the dangling-subscription invariant. Idle clients within 0.8 x keep-alive (measured by the client itself) must still be answered.",
+         "Wall-clock waits are real (keep-alive, the 3 s node-failure delay); scenarios whose measured gaps exceed the bound give no verdict.", "5/C11"),
+ "C12": ("exploration", "schedule-controlled takeover scenarios (gossip pump and hook gates) with state-resolution and client-side monitors",
+         "Full grid of pairs (placement x displaced session's event x timing incl. the two hook points between delete/create and lookup/delete) and seeded chains of three; every node must resolve the identifier to the newest session, the displaced session's PINGREQ must go unanswered and its connection be closed, and the newest session's record, subscription and deliveries must survive the old one's teardown.",
+         "Hook H2 gates block the accepting / tearing-down goroutine at the named points; session ids are made predictable by the harness's authentication handler.", "5/C12"),
+ "C13": ("exploration", "unique-tag delivery monitor at watcher clients on every node, per termination cause, behind a sentinel barrier",
+         "Termination cause x will QoS/retain/topic x placement over 1-3 nodes; every matching watcher on a surviving node must receive the will exactly once on the client's topic, nobody after DISCONNECT, non-matching watchers nothing.",
+         "A stray will after the barrier would be missed (publish workers are unordered).", "5/C13"),
+ "C17": ("exploration", "non-interference monitor: every message carries its tenant in the tag; all packets read by every client of every tenant are compared after per-tenant barriers",
+         "2-3 tenants (one mount point a prefix of another) x wildcard and tenant-looking filters/topics x shared client identifiers x publish / retained / will (connection loss and node failure); no client may hold another tenant's tag, own-tenant deliveries must match the filter with byte-identical topics, shared-identifier sessions must stay served.",
+         "Mount point = user name through the harness's authentication handler.", "5/C17"),
+ "C18": ("exploration", "structure-aware mutation corpus sent to a broker in a child process; crash = child death (reported by the parent with the logged hex), liveness = witness clients' PINGRESP and tagged round trips",
+         "About 1900 (quick) / 60000 (thorough) hostile streams incl. truncation at every offset, type/flag nibble sweeps, remaining-length and length-prefix corruption, protocol violations and seeded havoc, each on a fresh connection; forced expiry sweeps after every batch flush what the hostile sessions left in flight; two witness clients must stay connected, answer pings and complete publish/receive round trips.",
+         "A client that stops reading is out of scope. Attribution of a crash is to the last logged streams.", "5/C18"),
+ "C15": ("fault_enumeration", "offline checker over per-incarnation event logs of real consumer processes killed (SIGKILL to self) at exact hook points",
+         "Chains of separate processes consume one on-disk log; each but the last is killed at one of four points of Consume for offsets around batch edges, segment rolls and the truncation point, or cancelled after N hand-overs, with appends in between; the logs must show contiguous hand-over with the right payloads, restart at c+1 (or c after a kill), and every appended offset handed over.",
+         "Hook H5 (points) and a recording Writer hook. SIGKILL never interrupts an append (appends concurrent with consumption only in cancelled incarnations).", "5/C15"),
+ "C20": ("exploration", "Go race detector over seven repeated stress workloads, each with its own oracle (porcupine linearizability for the registry, shadow set, exactly-once counting, LWW reference, conservation)",
+         "Race-detector build; any report is a violation (de-duplicated by outermost frame pair). Workloads: registry (porcupine, per-key register), identifier pool, in-flight table with sweeper, both tries incl. stores rebuilt by Load, replicated state with concurrent merges, a session's filter list, and a two-node broker storm with forced sweeps and push/pull.",
+         "Sees only the interleavings the stress produced. A race inside the commit-log dependency is a recorded known finding.", "5/C20"),
 }
 NOT_YET = "check not built yet in this round (design in DESIGN.md section 5); will be claimed once its monitor exists"
 
